@@ -94,6 +94,16 @@ theorem this_tree_full (cap : Nat) (ops : List ConnOp) :
     (trun Nsq.Tie.WireStack.treeFixed (tconn0 cap) ops).leaked = [] :=
   this_tree cap ops (Or.inl Nsq.Tie.WireStack.tree_fixed)
 
+/-- … and on THIS tree the client decodes exactly the frames sent (claim audit 2, item 36: `this_tree_full` is
+`OnNegotiated ∧ leaked = []` only; the decode conjunct of `output_on_negotiated_transport` is stated over `trun true`, here it
+is transported to the tree the facts select): what the client has seen, transport by transport, plus what is still
+buffered, is the concatenation of the encodings of the frames sent. -/
+theorem this_tree_decodes (cap : Nat) (ops : List ConnOp) :
+    (trun Nsq.Tie.WireStack.treeFixed (tconn0 cap) ops).seen ++ (trun Nsq.Tie.WireStack.treeFixed (tconn0 cap) ops).w.buf =
+      (((trun Nsq.Tie.WireStack.treeFixed (tconn0 cap) ops).sent).map encodeFrame).flatten := by
+  rw [Nsq.Tie.WireStack.tree_fixed]
+  exact (output_on_negotiated_transport cap ops).2.2
+
 /-- In BOTH trees no byte is lost, duplicated or reordered on the server side: the defect is where
 the bytes go, not which bytes. -/
 theorem no_byte_lost_either_tree (fixed : Bool) (cap : Nat) (ops : List ConnOp) :
@@ -127,6 +137,12 @@ example : let c := trun true (tconn0 8) [.upgrade 8, .sendResponse okFrame, .set
 /-- the tree's model on the second-IDENTIFY schedule: nothing leaked -/
 example : (trun Nsq.Tie.WireStack.treeFixed (tconn0 16384) (secondIdentify [83, 69, 67, 82, 69, 84])).leaked = [] :=
   (this_tree_full 16384 _).2
+/-- … and the client decodes the frames sent (non-trivially: frames were sent) -/
+example : (trun Nsq.Tie.WireStack.treeFixed (tconn0 16384) (secondIdentify [83, 69, 67, 82, 69, 84])).seen ++
+      (trun Nsq.Tie.WireStack.treeFixed (tconn0 16384) (secondIdentify [83, 69, 67, 82, 69, 84])).w.buf =
+    (((trun Nsq.Tie.WireStack.treeFixed (tconn0 16384) (secondIdentify [83, 69, 67, 82, 69, 84])).sent).map encodeFrame).flatten :=
+  this_tree_decodes 16384 _
+example : (trun true (tconn0 16384) (secondIdentify [83, 69, 67, 82, 69, 84])).sent ≠ [] := by decide
 
 /-! ## Round 11 (fix review of F30): the sync markers of `c.flateWriter` — F30 is incomplete, F30b completes it
 
